@@ -120,7 +120,16 @@ impl Property for C15 {
                     continue;
                 }
                 node_print.insert(pi_, printed.clone());
-                let wrapped = format!("<r>{}</r>", printed);
+                // "]]>" inside ONE text node: legitimate data for a piece of an attribute value (where such a node comes
+                // from) and for a node that is in no tree; below an element the printer writes it as "]]&gt;"
+                let wrapped = if let XmlNode::Text(_) = n {
+                    if printed.contains("]]>") && !matches!(xml_dom::Node::parent_node(n), Some(XmlNode::Element(_))) {
+                        continue;
+                    }
+                    format!("<r>{}</r>", printed.replace("]]>", "]]&gt;"))
+                } else {
+                    format!("<r>{}</r>", printed)
+                };
                 let want = canon::merge(&serde_json::json!({"k": "x", "kids": [canon::node_json(n, 0)]}));
                 let ok = match xml_dom::XmlDocument::from_raw(&wrapped) {
                     Ok((rest, re)) if rest.is_empty() => {
